@@ -304,7 +304,7 @@ func init() {
 	bud := TraceOpts{MinRules: 1, MaxRules: 6, MinPool: 3, MaxPool: 6, Control: true, Calls: false, Strs: false, Depth: 2}
 	register(&Check{
 		ID: "C06", Level: "exploration",
-		Rule: "terminating and non-terminating rule sets; for each (program,state) MaxCycle is enumerated over {0,1,n-1,n,n+1,n+2} with n the natural number of firings (small values when it does not terminate), with 1 or 3 listeners; oracle = protocol automaton over the event list + reference count of needed firings; logical hang detection (BeginCycle MaxCycle+3 aborts); non-trivial = distinct runs that hit the budget boundary exactly (firings == MaxCycle) or ended abnormally",
+		Rule: "terminating and non-terminating rule sets; for each (program,state) MaxCycle is enumerated over {0,1,n-1,n,n+1,n+2} with n the natural number of firings (small values when it does not terminate), with 1 or 3 listeners; oracle = protocol automaton over the event list + reference count of needed firings; logical hang detection (BeginCycle MaxCycle+3 aborts); non-trivial = distinct runs that hit the budget boundary exactly (firings == MaxCycle) or ended abnormally; a firing is the ExecuteRuleEntry notification (calls on the data context are not part of the protocol), action-side effects outside the window it opens are violations; the cycle that ends in the cycle-limit error must still report every active rule; an engine call that never returns (goroutine parked on a lock, no recorded progress) is reported instead of hanging the check",
 		Assume: []string{"same domain as C01"},
 		Cases:  tierN(500, 15000),
 		Run: func(c *Ctx, idx int) *CaseResult {
